@@ -32,7 +32,7 @@ def model_runs(ctx, quick):
 
     def one(r):
         mod, cfg, viol = r
-        return r, tlc.run(mod, cfg, expect_violation=viol is not None, workers=4, tag="c05" + cfg[:-4], timeout=3000)
+        return r, tlc.run(mod, cfg, expect_violation=viol is not None, workers=2, tag="c05" + cfg[:-4], timeout=3000)
     with multiprocessing.pool.ThreadPool(len(runs)) as tp:
         outs = tp.map(one, runs)
     broken = {}
@@ -135,13 +135,13 @@ def run(ctx):
     nrandom = 100 if quick else 1500
     import time
     t_gen = time.time()
-    with mp.Pool(tlc.NCPU) as pool:
+    with mp.get_context("fork").Pool(tlc.NCPU, maxtasksperchild=1) as pool:     # one ISA per process
         counts = pool.map(c17.spec_count, D.isa_modes())
         jobs = []
         for isa, mode, n, err in counts:
             if err:
                 raise tlc.MachineryError("ISA module %s does not import (reported by C17): %s" % (isa, err))
-            step = max(8, min(64, (n * len(fillings)) // 600 or 8))
+            step = max(16, -(-n // 6))      # at most 6 chunks per ISA/mode; every chunk runs in its own process
             lo, first = 0, True
             while lo < n:
                 jobs.append((isa, mode, lo, min(n, lo + step), fillings, nrandom if first else 0, ctx.seed))
